@@ -240,6 +240,18 @@ func runAll(repo, verif string, pkgPats []string, hre, solver, tier string, time
 					m.Reached[k] = v
 				}
 			}
+			for _, fnm := range r.Funcs {
+				dup := false
+				for _, y := range m.Funcs {
+					if fnm == y {
+						dup = true
+						break
+					}
+				}
+				if !dup {
+					m.Funcs = append(m.Funcs, fnm)
+				}
+			}
 			for _, x := range r.Expected {
 				dup := false
 				for _, y := range m.Expected {
